@@ -30,16 +30,16 @@ type c03Spec struct {
 func c03Specs(tier string, seed int) []c03Spec {
 	var out []c03Spec
 	// E3: 3-line batches (shared project files / shared parameter folder / repeated line under another output id), concurrency 2 and 3
-	batches := [][]string{{"A", "B", "C"}, {"A", "A2", "B"}, {"C", "A", "B"}, {"B", "C", "A2"}, {"A", "A", "C"}, {"C", "B", "A"}}
+	batches := [][]string{{"A", "B", "C"}, {"A", "A2", "B"}, {"C", "A", "B"}, {"A", "A", "C"}}
 	bound := 1
 	if tier == "thorough" {
 		bound = 3
-		batches = append(batches, []string{"A2", "A", "C"}, []string{"B", "B", "A"}, []string{"C", "C", "A"}, []string{"B", "A", "A2"}, []string{"A", "C", "B"}, []string{"A2", "B", "C"})
+		batches = append(batches, []string{"B", "C", "A2"}, []string{"C", "B", "A"}, []string{"A2", "A", "C"}, []string{"B", "B", "A"}, []string{"C", "C", "A"}, []string{"B", "A", "A2"}, []string{"A", "C", "B"}, []string{"A2", "B", "C"})
 	}
 	for i, b := range batches {
 		for _, conc := range []int{2, 3} {
 			bd := bound
-			if tier == "quick" && conc == 2 && (i+seed)%6 == 0 {
+			if tier == "quick" && conc == 2 && (i+seed)%4 == 0 {
 				bd = 2 // quick: one of the batches (rotating with the seed) one bound deeper at concurrency 2
 			}
 			out = append(out, c03Spec{Kind: "e3", Batch: b, Conc: conc, Bound: bd, Days: 3})
@@ -83,6 +83,9 @@ func c03Specs(tier string, seed int) []c03Spec {
 	out = append(out, c03Spec{Kind: "seq", Batch: []string{"C", "C", "Ca"}}, c03Spec{Kind: "seq", Batch: []string{"Ap", "A", "Ap"}}, c03Spec{Kind: "seq", Batch: []string{"C", "Ca", "C"}},
 		c03Spec{Kind: "seq", Batch: []string{"Cw", "Cw2"}}, c03Spec{Kind: "seq", Batch: []string{"Cw", "C", "Cw2"}}, c03Spec{Kind: "seq", Batch: []string{"Cw", "Cw2", "Cw"}},
 		c03Spec{Kind: "seq", Batch: []string{"C", "Cu"}}, c03Spec{Kind: "seq", Batch: []string{"Cu", "C"}}, c03Spec{Kind: "seq", Batch: []string{"Cu", "A", "C"}})
+	// a successful run that writes to the log channel while the other slots are busy
+	out = append(out, c03Spec{Kind: "e3", Batch: []string{"Cv", "A", "B"}, Conc: 2, Bound: bound, Days: 2}, c03Spec{Kind: "e3", Batch: []string{"A", "Cv", "B", "C"}, Conc: 2, Bound: b4, Days: 2},
+		c03Spec{Kind: "seq", Batch: []string{"Cv", "A", "Cv"}})
 	if tier == "thorough" { // (the reader reports every repaired day through the log channel: many scheduling points)
 		out = append(out, c03Spec{Kind: "e3", Batch: []string{"Cw", "Cw2"}, Conc: 2, Bound: 1, Days: 1}, c03Spec{Kind: "e3", Batch: []string{"Cw", "C", "Cw2"}, Conc: 2, Bound: 1, Days: 1})
 	}
@@ -129,7 +132,7 @@ func init() {
 			"the rewriter (engine/rewrite) and the scheduler (engine/vsched) are trusted; constructs they do not model are refused with a harness error"},
 		Bound: func(t string) string {
 			if t == "quick" {
-				return "6 three-line batches x concurrency 2,3 at preemption bound 1 (one of them at bound 2; 3 simulated days); 5 two-line batches unbounded; 2 four-line batches at bound 0; all 80 line sequences of length 2-3 in one session; race pass with 4 and 8 concurrent runs"
+				return "4 three-line batches (+ 2 with feature lines) x concurrency 2,3 at preemption bound 1 (one of them at bound 2; 3 simulated days); 5 two-line batches unbounded; 2 four-line batches at bound 0; all 80 line sequences of length 2-3 in one session; race pass with 4 and 8 concurrent runs"
 			}
 			return "12 three-line batches x concurrency 2,3 at preemption bound 3; 5 two-line batches unbounded; one three-line batch unbounded (1 simulated day); 2 four-line batches at bound 2; a five-line batch with 4 workers at bound 1; all 80 line sequences; race pass"
 		},
